@@ -29,6 +29,7 @@ func init() {
 			{ID: "C05-R3", Title: "global names sorted before symbol insertion", Floor: 1, Run: c05r3},
 			{ID: "C05-R4", Title: "the front end keeps no package-level state written after initialisation", Floor: 3, Run: c05r4},
 			{ID: "C05-R5", Title: "comparison functions are lexicographic where they compare two keys", Floor: 1, Run: brokenLexicographicLess},
+			{ID: "C05-R6", Title: "script values are not rendered with fmt's default formatting", Floor: 1, Run: sprintOfObjects},
 		},
 	})
 }
